@@ -81,12 +81,14 @@ def main():
                 "text": "Static analysis. Decides, on every path / for every table row of the current source, the structural "
                         f"necessary conditions of the property: {what}. It decides these clauses and not the value-level behaviour "
                         "(the V-clauses of DESIGN.md section 4), which no sound static argument in reach can bound.",
-                "design_ref": f"DESIGN.md section 4, {pid}",
+                "design_ref": f"RULES.md section {pid} (as built, per rule with the static device used); DESIGN.md sections 4 ({pid}: plan) and 13",
             },
             "level_note": "Trusted: CPython ast, networkx dominators, lark's grammar loader, the primitive-effect and reference tables "
                           "frozen in csverif (DESIGN.md section 2); call resolution is by construction/annotation, unresolved calls are "
                           "reported in the evidence. Nothing from /repo is imported or executed.",
-            "technique": tech,
+            "technique": tech + "; subjects located by role through def-use / reaching definitions, path-wise value flow with symbolic terms "
+                         "(no solver, no concrete inputs), polynomial normal forms and stated algebraic lemmas; three-valued verdicts (an unlocatable "
+                         "subject is undecided, never a violation)",
         })
     man = {
         "version": 1,
@@ -108,9 +110,12 @@ def main():
         }],
         "checks": checks,
         "not_applicable": na,
-        "notes": "All checks are static (no code from /repo runs). Thorough tier = quick rules + scripts/ + the mutant/twin self-test "
-                 "corpus for the property (selftest/). Exit 2 + ANALYSIS-ERROR means the analysis itself is broken (vanished anchor, "
-                 "instance count below floor, self-test mismatch) and nothing is claimed.",
+        "notes": "All checks are static (no code from /repo is imported, executed or interpreted on concrete inputs; technique policy in "
+                 "RULES_GUIDE.md). Thorough tier = quick rules + scripts/ + the mutant/twin self-test corpus of the property (selftest/) + the "
+                 "independently written patches under seeded/ (breaking, must be reported) and benign/ (behaviour-preserving, listed if they "
+                 "alarm) applied to scratch copies of the committed tree. Obligations end discharged, violated (exit 1) or undecided (listed "
+                 "in the evidence, exit status unaffected). Exit 2 + ANALYSIS-ERROR means the analysis itself is broken (vanished anchor, "
+                 "a rule matching nothing, self-test mismatch) and nothing is claimed.",
     }
     with open(os.path.join(HERE, "MANIFEST.json"), "w") as f:
         json.dump(man, f, indent=1)
